@@ -72,7 +72,8 @@ def run_vac(case, mon):
         base = work_vac.rand_args(rng, diff, 'VSB012', sigma)
         for kk in (0, 4, 8, 12, 16):
             args = [x.copy() for x in base]
-            args[5] = args[5] - kk * np.log(10.)
+            if k % 2 == 1 and len(args[5]) > 1: args[5][0] = args[5][0] - kk * np.log(10.)  # one exchange class only
+            else: args[5] = args[5] - kk * np.log(10.)
             tags = work_vac.regime_tags(diff, args)
             if kk >= 8: tags += ['om2_scaling>=1e8', 'large_om2_algorithm']
             desc = {'crystal': name, 'Nthermo': nth, 'sigma': sigma, 'om2_scaling': '1e%d' % kk, 'args': args}
